@@ -241,6 +241,21 @@ def search(chk: Check, n_big, kinds, salt=0):
                             ("ratio_cov", tt.RatioOfMeans("x", "y", "c", alternative=alt, equal_var=ev, use_t=ut))):
                 try:
                     m.analyze(aggs, 0, 1)
+                    # the other routes to the same analysis: the two Aggregates handed to analyze_aggregates directly, and
+                    # new Aggregates built from the values read back from objects that were analysed before
+                    m.analyze_aggregates(aggs[0], aggs[1])
+                    again = {g: A(aggs[g].count(), {k_: aggs[g].mean(k_) for k_ in names},
+                                  {k_: aggs[g].var(k_) for k_ in names},
+                                  {(a_, b_): aggs[g].cov(a_, b_) for i_, a_ in enumerate(names) for b_ in names[i_ + 1:]})
+                             for g in (0, 1)}
+                    m.analyze(again, 0, 1)
+                    m.analyze_aggregates(again[0], again[1])
+                    # ... and the COUNT read back from an analysed object next to freshly computed plain-float statistics
+                    mixed = {g: A(aggs[g].count(), {k_: float(aggs[g].mean(k_)) for k_ in names},
+                                  {k_: float(aggs[g].var(k_)) for k_ in names},
+                                  {(a_, b_): float(aggs[g].cov(a_, b_)) for i_, a_ in enumerate(names) for b_ in names[i_ + 1:]})
+                             for g in (0, 1)}
+                    m.analyze(mixed, 0, 1)
                 except Exception as ex:  # noqa: BLE001
                     chk.fail("analysis raised on degenerate but valid data",
                              dict(input=dict(family=fname, input="dict of hand-built Aggregates (plain floats)",
